@@ -460,7 +460,7 @@ impl HelpTemplate<'_, '_> {
         }
         if subcmds && flatten {
             let mut cmd = self.cmd.clone();
-            cmd.build();
+            cmd._build_for_flatten_help();
             self.write_flat_subcommands(&cmd, &mut first);
         }
     }
